@@ -11,6 +11,11 @@
              some linearisation allows (last set of one thread + its later increments + a suffix
              of every other thread's increments after that thread's own last set).
 
+   Further kinds: `busy` (a writer thread against a long critical section of to_json/snapshot),
+   `attach` (set_metrics / run / take_metrics / get_metrics sequences on one pipeline: model =
+   Metrics.pstate, reference = one variable "last set not yet taken"), `export` / `transparent`
+   (JSON export, pipelines with and without a collector, the views of a run's duration).
+
    Encodings (shared with c16.rs): metric = [name, kind, val], kind 0 = counter, 1 = other;
    operation = [code, name, val], code 0 increment, 1 set_counter, 2 register counter,
    3 register other; name -1 = "execution_time_ms". *)
@@ -395,7 +400,7 @@ Definition judge_transparent (regs : list (name * metric)) (errs : list Z) (pois
           let '(want, mf) := model_runs 0 errs wos m0 in
           let names := map fst regs in
           match rest with
-          | JL [JS t; JB el; jkeys; JB got; JB taken; JB gone; JB elpos; JL [JI window; jel; jms]] =>
+          | JL [JS t; JB el; jkeys; JB got; JB taken; JB gone; JB elpos; JL [JI window; jel; jms; JI hi_last]] =>
               match jints jkeys with
               | Some keys =>
                   let last_ok := match rev ws with w :: _ => is_ok w | [] => false end in
@@ -405,7 +410,10 @@ Definition judge_transparent (regs : list (name * metric)) (errs : list Z) (pois
                     match jel, jms with
                     | JN, JN => negb el
                     | JI d, JI ms =>
-                        el && (lo_ms * NS_PER_MS <=? d) && (d <=? window) &&
+                        (* both stamps of a run lie inside that run's own window; a stale end
+                           stamp saturates to 0: whatever the runs were, the reported time does
+                           not exceed the LAST run's window *)
+                        el && (lo_ms * NS_PER_MS <=? d) && (d <=? window) && (d <=? hi_last) &&
                         match model_time_ms (ms_metrics mf) d with
                         | Some want => ms =? want
                         | None => false
@@ -415,7 +423,7 @@ Definition judge_transparent (regs : list (name * metric)) (errs : list Z) (pois
                   let time_prop :=
                     match jel, jms with
                     | JN, JN => true
-                    | JI d, JI ms => (ms =? d / 1000000) && (lo_ms <=? ms)
+                    | JI d, JI ms => (ms =? d / 1000000) && (lo_ms <=? ms) && (d <=? hi_last)
                     | _, _ => false
                     end in
                   let agree :=
@@ -441,6 +449,177 @@ Definition judge_transparent (regs : list (name * metric)) (errs : list Z) (pois
       | _, _ => None
       end
   | _, _ => None
+  end.
+
+(* ---------- a long critical section on one thread while another writes ---------- *)
+Definition SLOW_NAME : name := 50.
+Definition judge_busy (init : list (name * metric)) (ops : list call) (jsnap : J)
+           (overlapped blocked : bool) : option (bool * bool) :=
+  match dec_metrics jsnap with
+  | Some snap =>
+      let init' := init ++ [(SLOW_NAME, Other 7)] in
+      (* to_json / snapshot do not write: the writer's calls take effect, after the section *)
+      let final := run_calls (RegAll init' :: ops) empty_state in
+      let agree := store_eqb snap (ssort (ms_metrics final)) && negb (ms_poisoned final) &&
+                   overlapped && blocked in
+      let prop := forallb (fun n => ref_name n init' [ops] snap) (names_of_case init' [ops]) in
+      Some (agree, prop)
+  | None => None
+  end.
+
+(* ---------- the pipeline's metrics slot ---------- *)
+Definition MARK : Z := 100.
+Definition GETS : Z := 200.
+Definition oz_eqb (a b : option Z) : bool :=
+  match a, b with Some x, Some y => x =? y | None, None => true | _, _ => false end.
+Definition stamps_eqb (a b : mstate) : bool :=
+  oz_eqb (ms_start a) (ms_start b) && oz_eqb (ms_end a) (ms_end b).
+(* the observed elapsed() of a collector against its model state; the model clock ticks twice per
+   run (2r, 2r+1), runs = (lower bound, window) in ns of every run so far *)
+Definition el_ok (runs : list (Z * Z)) (s : mstate) (e : J) : bool :=
+  match elapsed s, e with
+  | None, JN => true
+  | Some x, JI d =>
+      if x =? 0 then d =? 0
+      else match ms_start s with
+           | Some a =>
+               oz_eqb (ms_end s) (Some (a + 1)) &&
+               match nth_error runs (Z.to_nat (a / 2)) with
+               | Some (lo, hi) => (lo <=? d) && (d <=? hi)
+               | None => false
+               end
+           | None => false
+           end
+  | _, _ => false
+  end.
+Definition els_ok (runs : list (Z * Z)) (p p' : pstate) (prev els : list J) : bool :=
+  Nat.eqb (List.length els) (List.length (ps_colls p')) &&
+  forallb (fun k =>
+             let e := nth k els (JS "missing") in
+             el_ok runs (coll k p') e &&
+             (if stamps_eqb (coll k p) (coll k p') then jeqb e (nth k prev (JS "none")) else true))
+          (seq 0 (List.length els)).
+Definition slot_marker (o : option nat) : Z := match o with Some k => Z.of_nat k | None => -1 end.
+
+Fixpoint attach_model (steps obs : list J) (t : nat) (p : pstate) (prev : list J)
+         (runs : list (Z * Z)) (slept : Z) : option (bool * pstate * list J) :=
+  match steps, obs with
+  | [], [] => Some (true, p, prev)
+  | st :: steps', JL [o; JL els] :: obs' =>
+      let r : option (bool * pstate * nat * list (Z * Z)) :=
+        match st with
+        | JL [JI 0; JI k] =>
+            if k <? 0 then None
+            else Some (jeqb o (JI 0), p_set_metrics (Z.to_nat k) p, t, runs)
+        | JL [JI 1; JI e] =>
+            let plan : outcome unit := if e =? 2 then Err 0 else Ok tt in
+            let exec := fun _ : unit => if e =? 0 then Ok tt else @Err unit 0 in
+            let '(res, p') := run_on plan exec Z.of_nat (2 * t) (2 * t + 1) p in
+            let tag := match res with Ok _ => 0 | Err _ => 1 | Panic => 2 end in
+            match o with
+            | JL [JI tg; JI hi] =>
+                Some (tg =? tag, p', S t, runs ++ [((if e =? 0 then slept * NS_PER_MS else 0), hi)])
+            | _ => None
+            end
+        | JL [JI 2] =>
+            let '(got, p') := p_take_metrics p in Some (jeqb o (JI (slot_marker got)), p', t, runs)
+        | JL [JI 3] =>
+            let got := p_get_metrics p in
+            let p' := match got with
+                      | Some k => PS (ps_slot p) (upd k (run_calls [Incr GETS 1] (coll k p)) (ps_colls p))
+                      | None => p
+                      end in
+            Some (jeqb o (JI (slot_marker got)), p', t, runs)
+        | _ => None
+        end in
+      match r with
+      | Some (ok, p', t', runs') =>
+          match attach_model steps' obs' t' p' els runs' slept with
+          | Some (ok', pf, last) => Some (ok && els_ok runs' p p' prev els && ok', pf, last)
+          | None => None
+          end
+      | None => None
+      end
+  | _, _ => None
+  end.
+
+(* independent reference: one variable = the collector of the last set_metrics not yet taken *)
+Fixpoint same_except (k : Z) (i : Z) (a b : list J) : bool :=
+  match a, b with
+  | [], [] => true
+  | x :: a', y :: b' => ((i =? k) || jeqb x y) && same_except k (i + 1) a' b'
+  | _, _ => false
+  end.
+Fixpoint attach_ref (steps obs : list J) (cur : Z) (prev : list J) (slept : Z) : bool :=
+  match steps, obs with
+  | [], [] => true
+  | st :: steps', JL [o; JL els] :: obs' =>
+      match st with
+      | JL [JI 0; JI k] => same_except (-1) 0 els prev && attach_ref steps' obs' k els slept
+      | JL [JI 1; JI e] =>
+          same_except cur 0 els prev &&
+          (if (0 <=? cur) && (e =? 0) then
+             match o, nth (Z.to_nat cur) els JN with
+             | JL [JI 0; JI hi], JI d => (slept * 1000000 <=? d) && (d <=? hi)
+             | _, _ => false
+             end
+           else true) &&
+          attach_ref steps' obs' cur els slept
+      | JL [JI 2] => jeqb o (JI cur) && same_except (-1) 0 els prev && attach_ref steps' obs' (-1) els slept
+      | JL [JI 3] => jeqb o (JI cur) && same_except (-1) 0 els prev && attach_ref steps' obs' cur els slept
+      | _ => false
+      end
+  | _, _ => false
+  end.
+
+Definition judge_attach (steps : list J) (slept : Z) (obs finals : list J) : option (bool * bool) :=
+  let n := List.length finals in
+  let p0 := PS None (map (fun k => run_calls [Reg (MARK + Z.of_nat k) (Counter (N.of_nat (S k)))] empty_state)
+                         (seq 0 n)) in
+  let none := repeat JN n in
+  match attach_model steps obs 0 p0 none [] slept with
+  | Some (ok, pf, last) =>
+      let fin_agree :=
+        forallb (fun k =>
+                   match nth k finals JN with
+                   | JL [jsnap; jt; jkeys] =>
+                       match dec_metrics jsnap, jints jkeys with
+                       | Some snap, Some keys =>
+                           store_eqb snap (ssort (ms_metrics (coll k pf))) &&
+                           zlist_eqb keys (zsort (json_keys (coll k pf))) &&
+                           match nth k last JN, jt with
+                           | JN, JN => true
+                           | JI d, JI ms => match model_time_ms (ms_metrics (coll k pf)) d with
+                                            | Some want => ms =? want
+                                            | None => false
+                                            end
+                           | _, _ => false
+                           end
+                       | _, _ => false
+                       end
+                   | _ => false
+                   end) (seq 0 n) in
+      let fin_prop :=
+        forallb (fun k =>
+                   match nth k finals JN with
+                   | JL [jsnap; jt; _] =>
+                       match dec_metrics jsnap with
+                       | Some snap =>
+                           match lookup (MARK + Z.of_nat k) snap with
+                           | Some (Counter c) => N.eqb c (N.of_nat (S k))
+                           | _ => false
+                           end &&
+                           match nth k last JN, jt with
+                           | JN, JN => true
+                           | JI d, JI ms => ms =? d / 1000000
+                           | _, _ => false
+                           end
+                       | None => false
+                       end
+                   | _ => false
+                   end) (seq 0 n) in
+      Some (ok && fin_agree, attach_ref steps obs (-1) none slept && fin_prop)
+  | None => None
   end.
 
 (* ---------- entry point ---------- *)
@@ -579,6 +758,27 @@ Definition check_C16 (kind : string) (input output : J) : verdict :=
             ok_verdict agree prop
         | _, _, _, _ => malformed
         end
+    | _, _ => malformed
+    end
+  else if String.eqb kind "busy" then
+    (* in = [driver, init, ops, ms]; out = [ok, snapshot, B saw A inside its critical section, A
+       had left it when B's first call returned] *)
+    match input, output with
+    | JL [JI _; jinit; jops; JI _], JL [JS _; jsnap; JB overlapped; JB blocked] =>
+        match dec_metrics jinit, dec_thread jops with
+        | Some init, Some ops => finish (judge_busy init ops jsnap overlapped blocked)
+        | _, _ => malformed
+        end
+    | _, _ => malformed
+    end
+  else if String.eqb kind "attach" then
+    (* in = [steps, mode, data, parts, cfg]; out = [ok, per step [observation, elapsed ns of every
+       collector], per collector [snapshot, execution_time_ms of to_json, to_json keys]] *)
+    match input, output with
+    | JL [JL steps; JI mode; jdata; JI _; JI _], JL [JS _; JL obs; JL finals] =>
+        let sleeps := match jints jdata with Some l => map clamp_ms l | None => [] end in
+        let slept := if mode =? 0 then zsum sleeps else zmax sleeps in
+        finish (judge_attach steps slept obs finals)
     | _, _ => malformed
     end
   else malformed.
